@@ -161,6 +161,8 @@ def m_olestream_read(ex, st, obj, args, kwargs, node):
         return [(st, VUnk("bytes"))]
     ole, name = key
     st.assume(SLEN(ole, name) >= 0)
+    if z3.is_string_value(name):
+        st.ghost[("stream_read", name.as_string())] = True
     return [(st, VSeq(SLEN(ole, name), lambda i: VInt(SBYTE(ole, name, i)), "byte", True, tag=(ole, name)))]
 
 
@@ -208,11 +210,73 @@ def install_container_models(reg):
     reg.ext_models["zipfile.is_zipfile"] = m_is_zipfile
     reg.method_models[("ZipFile", "read")] = m_zip_read
     reg.method_models[("Blob", "decode")] = m_blob_decode
+    reg.ext_models["struct.Struct"] = m_struct_new
+    reg.method_models[("Struct", "unpack_from")] = m_struct_unpack_from
+
+
+STRUCT_FMT = {}     # z3 id of a Struct constant -> format string (filled when the module-level `struct.Struct("<H")` is evaluated)
+_SIZES = {"B": 1, "H": 2, "I": 4, "Q": 8}
+
+
+def m_struct_new(ex, st, args, kwargs, node):
+    fmt = args[0].const() if args and isinstance(args[0], VStr) else None
+    s_ = VExt("Struct")
+    STRUCT_FMT[s_.t.get_id()] = fmt
+    return [(st, s_)]
+
+
+def m_struct_unpack_from(ex, st, obj, args, kwargs, node):
+    """struct.Struct('<X').unpack_from(buf, off): ASSUMED semantics of the struct module for one little-endian
+    unsigned field: struct.error unless off + size <= len(buf); the value is sum(buf[off+k] * 256**k)."""
+    fmt = STRUCT_FMT.get(obj.t.get_id())
+    buf = args[0] if args else None
+    off = args[1] if len(args) > 1 else kwargs.get("offset", VInt(0))
+    if not (fmt and len(fmt) == 2 and fmt[0] == "<" and fmt[1] in _SIZES and isinstance(buf, VSeq) and buf.is_bytes and isinstance(off, VInt)):
+        return ex.havoc_call(st, f"Struct({fmt}).unpack_from", args, node)
+    size = _SIZES[fmt[1]]
+    o = ops.int_term(off)
+    st2 = ex.fork_raise(st, z3.Or(o < 0, o + size > buf.length), "struct.error")
+    if st2 is None:
+        return []
+    bs = [ops.int_term(buf.elem(o + k)) for k in range(size)]
+    st2.assume(z3.And([z3.And(b >= 0, b <= 255) for b in bs]))
+    return [(st2, VTuple([VInt(z3.Sum([b * (256 ** k) for k, b in enumerate(bs)]))]))]
+
+
+INLINE_METHODS = {"_get_stream"}
 
 
 # ----------------------------------------------------------------- executor --
+def raises_encrypted(stmt):
+    """`if <cond>: raise ExtractionFileEncryptedError(...)` (the rejection site)."""
+    return isinstance(stmt, ast.If) and any(isinstance(n, ast.Raise) and n.exc is not None and ENCERR in ast.unparse(n.exc)
+                                            for b in stmt.body for n in ast.walk(b))
+
+
 class C08Executor(Executor):
-    """int.from_bytes(slice, 'little') over a symbolic byte sequence; ghost bookkeeping for yields."""
+    """int.from_bytes(slice, 'little') over a symbolic byte sequence; ghost bookkeeping for yields.
+    `merge_after_check`: precise paths up to and including the rejection site, merged (over-approximated,
+    sound) states for the remaining statements of that block -- a performance knob only."""
+
+    def __init__(self, *a, merge_after_check=False, **kw):
+        super().__init__(*a, **kw)
+        self.merge_after_check = merge_after_check
+
+    def exec_block(self, stmts, st):
+        if self.merge_after_check and not self.merge and self.inline_depth == 0:
+            for idx, s_ in enumerate(stmts):
+                if raises_encrypted(s_) and idx + 1 < len(stmts):
+                    outs = super().exec_block(stmts[:idx + 1], st)
+                    falls = [o.st for o in outs if o.kind == "fall"]
+                    res = [o for o in outs if o.kind != "fall"]
+                    self.merge = True
+                    try:
+                        for f_ in falls:
+                            res.extend(super().exec_block(stmts[idx + 1:], f_))
+                    finally:
+                        self.merge = False
+                    return res
+        return super().exec_block(stmts, st)
 
     def call(self, st, f, args, kwargs, node):
         if isinstance(f, VFunc) and f.how == "classattr" and f.a == "int" and f.b == "from_bytes":
@@ -232,6 +296,11 @@ class C08Executor(Executor):
         st.assume(other >= 0)
         two = e0 + 256 * e1 if oc == "little" else 256 * e0 + e1
         return [(st, VInt(z3.If(n == 2, two, z3.If(n == 1, e0, z3.If(n == 0, z3.IntVal(0), other)))))]
+
+    def obj_method(self, st, obj, name, args, kwargs, node):
+        if not self.inline_calls and name not in INLINE_METHODS and self.reg.get(f"{self.module.rel}::{st.obj(obj.ref).cls}.{name}") is None:
+            return self.havoc_call(st, f"method:{name}", [obj] + list(args), node)
+        return super().obj_method(st, obj, name, args, kwargs, node)
 
     def on_yield(self, st, v, node):
         st.ghost["n_yields"] = st.ghost.get("n_yields", 0) + 1
@@ -305,10 +374,62 @@ def detector_contracts(reg):
     return out
 
 
+# ---- DOC: FIB flag ---------------------------------------------------------
+FIB_FLAGS_AT, FIB_F_ENCRYPTED = 0x0A, 0x0100          # [MS-DOC] 2.5.2 FibBase: fEncrypted is bit 8 of the word at offset 10
+WORD97, WORD95 = 0xA5EC, 0xA5DC                       # wIdent values accepted as Word binary documents
+
+
+def doc_view(c):
+    ole = c.entry.obj(c.args["self"].ref).data["ole"]
+    return ole.t, sv("WordDocument")
+
+
+def doc_is_word(c):
+    """The container has a WordDocument stream of at least the minimal FIB size with a Word signature."""
+    ole, nm = doc_view(c)
+    return z3.And(EX(ole, nm), SLEN(ole, nm) >= 0x200, z3.Or(u16(ole, nm, 0) == WORD97, u16(ole, nm, 0) == WORD95))
+
+
+def doc_flag_set(c):
+    ole, nm = doc_view(c)
+    return ((u16(ole, nm, FIB_FLAGS_AT) / 256) % 2) == 1
+
+
+def own(c):
+    return c.exc is not None and "site" not in c.exc.attrs
+
+
+def is_enc_err(c):
+    return c.ex.uni.subclass_term(c.exc.tidx, ENCERR)
+
+
+def doc_contracts(reg):
+    reader = p_obj("_DocReader", {"file_like": p_ext("BytesIO"), "ole": p_ext("OleFile"), "_content": p_const(None),
+                                  "_is_unicode": p_const(None), "_text_start": p_const(None)})
+
+    def only_if(c):
+        return z3.Implies(z3.And(z3.BoolVal(own(c)), is_enc_err(c)), z3.And(doc_is_word(c), doc_flag_set(c)))
+
+    def if_(c):
+        # once the WordDocument stream has been read, a Word document with fEncrypted set has exactly one outcome
+        read_ok = bool(c.st.ghost.get(("stream_read", "WordDocument")))
+        return z3.Implies(z3.And(z3.BoolVal(read_ok), doc_is_word(c), doc_flag_set(c)), z3.And(z3.BoolVal(own(c)), is_enc_err(c)))
+
+    t = f"{DOC}::_DocReader._parse_content"
+    EXECUTOR_KW[t] = {"abstract": True, "inline_calls": False, "merge_after_check": True}
+    return [FnContract(
+        target=t, params=[("self", reader)], modifies=("self",),
+        ensures=[("content-returned-only-if-fEncrypted-clear", lambda c: z3.Not(z3.And(doc_is_word(c), doc_flag_set(c))))],
+        raises=[Raises("Exception", sub=True)],
+        exc_ensures=[("encrypted-error-only-if-fEncrypted-set", only_if), ("fEncrypted-set-implies-encrypted-error", if_)],
+        note="first parse of a fresh reader (_content is None, set by __init__); FIB word at 0x0A, bit 0x0100")]
+
+
 def contracts(reg):
     install_container_models(reg)
     out = []
     out += detector_contracts(reg)
+    out += doc_contracts(reg)
     return out
 
 
